@@ -88,6 +88,77 @@ Lemma sha256_block_count m : length (be32_words (pad_be64 m)) = 16 * ((length m 
 Proof. rewrite be32_words_length, pad_be64_blocks. lia. Qed.
 
 (* ------------------------------------------------------------------ *)
+(* the padding is injective: two messages shorter than 2^61 bytes (bit length < 2^64) never share a
+   padded form, so distinct messages reach the compression chain as distinct block sequences *)
+Lemma app_same_length_inv {A} (a b x y : list A) :
+  length x = length y -> a ++ x = b ++ y -> a = b /\ x = y.
+Proof.
+  intros Hl E.
+  assert (La : length a = length b).
+  { apply (f_equal (@length A)) in E. rewrite !app_length in E. lia. }
+  revert b La E; induction a as [|h a IH]; intros [|h' b] La E; cbn [length] in La; try discriminate.
+  - split; [reflexivity | exact E].
+  - cbn [app] in E. inversion E as [[Eh Et]]. destruct (IH b ltac:(lia) Et) as [-> ->]. split; reflexivity.
+Qed.
+
+Lemma md_pad_inj block lenlen enc m1 m2 :
+  (forall n, length (enc n) = N.to_nat lenlen) ->
+  (forall a b, (a < 2 ^ 64)%N -> (b < 2 ^ 64)%N -> enc a = enc b -> a = b) ->
+  (N.of_nat (length m1) < 2 ^ 61)%N -> (N.of_nat (length m2) < 2 ^ 61)%N ->
+  md_pad block lenlen enc m1 = md_pad block lenlen enc m2 -> m1 = m2.
+Proof.
+  intros Henc Hinj B1 B2 E. unfold md_pad in E. cbn zeta in E.
+  set (l1 := N.of_nat (length m1)) in *. set (l2 := N.of_nat (length m2)) in *.
+  (* compare the trailing length fields *)
+  assert (E' : (m1 ++ x80 :: zeros (N.to_nat (md_zeros block lenlen l1))) ++ enc (8 * l1)%N
+             = (m2 ++ x80 :: zeros (N.to_nat (md_zeros block lenlen l2))) ++ enc (8 * l2)%N).
+  { rewrite <- !app_assoc. cbn [app]. exact E. }
+  apply app_same_length_inv in E'; [|rewrite !Henc; reflexivity].
+  destruct E' as [Ebody Elen].
+  assert (L : l1 = l2).
+  { apply Hinj in Elen; [lia | change (2 ^ 64)%N with (8 * 2 ^ 61)%N; lia | change (2 ^ 64)%N with (8 * 2 ^ 61)%N; lia]. }
+  assert (Ln : length m1 = length m2) by (unfold l1, l2 in L; lia).
+  rewrite L in Ebody.
+  apply (f_equal (firstn (length m1))) in Ebody.
+  rewrite firstn_app, Nat.sub_diag, firstn_all in Ebody. cbn [firstn] in Ebody. rewrite app_nil_r in Ebody.
+  rewrite Ln, firstn_app, Nat.sub_diag, firstn_all in Ebody. cbn [firstn] in Ebody. rewrite app_nil_r in Ebody.
+  exact Ebody.
+Qed.
+
+Lemma be_bytes_inj k a b :
+  (a < 256 ^ N.of_nat k)%N -> (b < 256 ^ N.of_nat k)%N -> be_bytes k a = be_bytes k b -> a = b.
+Proof.
+  intros Ha Hb E. unfold be_bytes in E. apply (f_equal (@rev byte)) in E. rewrite !rev_involutive in E.
+  exact (le_bytes_inj k a b Ha Hb E).
+Qed.
+
+Lemma pad_be64_inj m1 m2 :
+  (N.of_nat (length m1) < 2 ^ 61)%N -> (N.of_nat (length m2) < 2 ^ 61)%N ->
+  pad_be64 m1 = pad_be64 m2 -> m1 = m2.
+Proof.
+  apply md_pad_inj; [apply be_bytes_length|].
+  intros a b Ha Hb. apply be_bytes_inj; assumption.
+Qed.
+
+Lemma pad_le64_inj m1 m2 :
+  (N.of_nat (length m1) < 2 ^ 61)%N -> (N.of_nat (length m2) < 2 ^ 61)%N ->
+  pad_le64 m1 = pad_le64 m2 -> m1 = m2.
+Proof.
+  apply md_pad_inj; [apply le_bytes_length|].
+  intros a b Ha Hb. apply le_bytes_inj; assumption.
+Qed.
+
+Lemma pad_be128_inj m1 m2 :
+  (N.of_nat (length m1) < 2 ^ 61)%N -> (N.of_nat (length m2) < 2 ^ 61)%N ->
+  pad_be128 m1 = pad_be128 m2 -> m1 = m2.
+Proof.
+  apply md_pad_inj; [apply be_bytes_length|].
+  intros a b Ha Hb. apply be_bytes_inj.
+  - eapply N.lt_trans; [exact Ha | vm_compute; reflexivity].
+  - eapply N.lt_trans; [exact Hb | vm_compute; reflexivity].
+Qed.
+
+(* ------------------------------------------------------------------ *)
 (* slow known answers *)
 Module SlowVectors.
 Local Open Scope string_scope.
